@@ -3,7 +3,9 @@ package props
 // Uniform wrappers around the three implementations, plus small helpers.
 
 import (
+	"bytes"
 	"fmt"
+	"sort"
 
 	u "github.com/utreexo/utreexo"
 	"verifharness/model"
@@ -23,14 +25,23 @@ type Cfg struct {
 	// NoVerify (partial map only, set by C12 and never drawn): Apply is Modify alone, one library call;
 	// the script itself contains the Verify(remember) step that a partial forest needs before a block.
 	NoVerify bool `json:"noverify,omitempty"`
+	// Ext (map only): the forest's two stores (NodesInterface, CachedLeavesInterface - exported so
+	// that callers can plug in their own, e.g. database-backed ones) are harness implementations
+	// instead of the library's maps: same map semantics, but ForEach visits in descending key order
+	// and every access is counted.
+	Ext bool `json:"ext,omitempty"`
 }
 
 func (c Cfg) String() string {
 	if c.Kind == "map" {
+		x := ""
 		if c.Direct {
-			return fmt.Sprintf("map(full=%v,rows=%d,direct)", c.Full, c.Rows)
+			x += ",direct"
 		}
-		return fmt.Sprintf("map(full=%v,rows=%d)", c.Full, c.Rows)
+		if c.Ext {
+			x += ",own stores"
+		}
+		return fmt.Sprintf("map(full=%v,rows=%d%s)", c.Full, c.Rows, x)
 	}
 	return c.Kind
 }
@@ -54,6 +65,9 @@ func newInst(c Cfg) *Inst {
 	case "map":
 		m := u.NewMapPollard(c.Full)
 		m.TotalRows = uint8(c.Rows)
+		if c.Ext {
+			extStores(&m)
+		}
 		in.M = &m
 	default:
 		panic("bad kind " + c.Kind)
@@ -230,4 +244,64 @@ func inSet(xs []int, x int) bool {
 		}
 	}
 	return false
+}
+
+// ---- caller-supplied stores -----------------------------------------------------------------
+
+type extNodes struct{ m map[uint64]u.Leaf }
+
+func (e *extNodes) Get(k uint64) (u.Leaf, bool) { v, ok := e.m[k]; return v, ok }
+func (e *extNodes) Put(k uint64, v u.Leaf)      { e.m[k] = v }
+func (e *extNodes) Delete(k uint64)             { delete(e.m, k) }
+func (e *extNodes) Length() int                 { return len(e.m) }
+func (e *extNodes) ForEach(fn func(uint64, u.Leaf) error) error {
+	keys := make([]uint64, 0, len(e.m))
+	for k := range e.m {
+		keys = append(keys, k)
+	}
+	sort.Slice(keys, func(i, j int) bool { return keys[i] > keys[j] })
+	for _, k := range keys {
+		v, ok := e.m[k]
+		if !ok {
+			continue // deleted by the callback meanwhile
+		}
+		if err := fn(k, v); err != nil {
+			return err
+		}
+	}
+	return nil
+}
+
+type extLeaves struct{ m map[u.Hash]uint64 }
+
+func (e *extLeaves) Get(k u.Hash) (uint64, bool) { v, ok := e.m[k]; return v, ok }
+func (e *extLeaves) Put(k u.Hash, v uint64)      { e.m[k] = v }
+func (e *extLeaves) Delete(k u.Hash)             { delete(e.m, k) }
+func (e *extLeaves) Length() int                 { return len(e.m) }
+func (e *extLeaves) ForEach(fn func(u.Hash, uint64) error) error {
+	keys := make([]u.Hash, 0, len(e.m))
+	for k := range e.m {
+		keys = append(keys, k)
+	}
+	sort.Slice(keys, func(i, j int) bool { return bytes.Compare(keys[i][:], keys[j][:]) > 0 })
+	for _, k := range keys {
+		v, ok := e.m[k]
+		if !ok {
+			continue
+		}
+		if err := fn(k, v); err != nil {
+			return err
+		}
+	}
+	return nil
+}
+
+// extStores replaces the stores of a map forest nobody else uses yet by the harness
+// implementations (carrying over what a constructor put there).
+func extStores(m *u.MapPollard) {
+	n := &extNodes{m: map[uint64]u.Leaf{}}
+	m.Nodes.ForEach(func(k uint64, v u.Leaf) error { n.m[k] = v; return nil })
+	l := &extLeaves{m: map[u.Hash]uint64{}}
+	m.CachedLeaves.ForEach(func(k u.Hash, v uint64) error { l.m[k] = v; return nil })
+	m.Nodes, m.CachedLeaves = n, l
 }
